@@ -393,7 +393,8 @@ func genC16(o *hx.Out, tier string) {
 		k := 1 + r.Intn(3)
 		var ops []srOp
 		for i := 0; i < 5+r.Intn(40); i++ {
-			op := srOp{kind: 'H', ch: r.Intn(k), sys: 1 + r.Intn(3), comp: 1 + r.Intn(2), ap: []int{3, 3, 3, 0, 8, 12}[r.Intn(6)]}
+			// senders include the node's own system id (10), its own identity (10.1) and the extremes
+			op := srOp{kind: 'H', ch: r.Intn(k), sys: []int{1, 2, 10, 255}[r.Intn(4)], comp: []int{1, 2, 255}[r.Intn(3)], ap: []int{3, 3, 3, 0, 8, 12}[r.Intn(6)]}
 			if r.Intn(3) == 0 {
 				op.kind = 'O'
 			}
